@@ -227,7 +227,7 @@ class C09(Prop):
         return False
 
     predicates = {"delimited_text_cell_padding": pred_textpad}
-    quick = {"runs": 4000, "wall": 45}
+    quick = {"runs": 12000, "wall": 60}
     thorough = {"runs": 200000, "wall": 900}
 
     def gen(self, st, tier, index):
